@@ -202,7 +202,7 @@ pub fn run(run: &Run) {
         });
     }
     // Control flow.
-    let max = run.tier.pick(3, 4);
+    let max = 4;
     let skels = enumerate(cf_opts(max));
     run.set_extra("cf_skeletons", json!(skels.len()));
     run.set_extra("cf_max_statements", json!(max));
